@@ -44,7 +44,7 @@ def both_zeros(line):
 
 class C13(Property):
     id = "C13"
-    lean_module = "RosuModel.Props.C13"
+    lean_module = "RosuModel.Props.C13Exact"   # imports Props/C13.lean; namespace Rosu.C13
     namespace = "Rosu.C13"
     design_ref = "5.13"
     level_text = (
@@ -54,7 +54,16 @@ class C13(Property):
         "difficulty/effect/sample point stores it iff it does not repeat the point active at its key (default when none; sample points "
         "always stored when none) (add_not_redundant_*, add_*_eq); each lookup returns the last stored point with key <= the probe key, "
         "with the differing fallbacks before the first point (lookup_spec, before_first_*); an add at a stored key overwrites exactly "
-        "that point (replace_at_equal_time*). The global reading 'no stored point repeats its predecessor' is proved false for "
+        "that point (replace_at_equal_time*). THE PROPERTY AS WORDED, IN TIMES (Props/C13Exact.lean): under the one hypothesis TimeKeyOn S - on the set S of times "
+        "occurring in operations and probes the key order is the time order: key a < key b iff a < b, key a = key b iff a == b, key a <= key b iff a <= b, with the "
+        "scalar's own comparisons - for every history of adds with times in S: times_strictly_sorted / adds_time_sorted (each list strictly increasing in TIME), "
+        "one_point_per_time (no two stored points with == times), lookup_time_spec / before_first_time (a lookup returns the latest point with time <= probe, "
+        "else first point / nothing), add_difficulty_time / add_effect_time / add_sample_time / add_redundant_noop (an add repeating the point active at its TIME, "
+        "or the default, is a no-op), replace_at_equal_time_T, all together worded_property. For IEEE f64, TimeKeyOn S holds exactly for the S with no NaN and not both "
+        "+0.0 and -0.0 (fact about total_cmp, not kernel-checkable; exhibited in the kernel on a toy scalar with two zeros: timeKeyOn_zz_no_negzero, "
+        "timeKeyOn_zz_both_zeros_false) - so on NaN-free histories F8 is the ONLY way the worded property fails. timeKeyOn_of_exact derives it from ExactScalar "
+        "(Lemmas/ExactArith.lean) + 'the key is strictly monotone on S' (instances: the integers inside Rat, all of the toy Z); no_global_time_key proves that "
+        "ExactScalar excludes a key monotone on ALL values (Q does not embed in Z), which is why the hypothesis is relative to S. The global reading 'no stored point repeats its predecessor' is proved false for "
         "out-of-order histories and for repeated times, and true for strictly increasing histories. The theorems speak of keys; the "
         "property speaks of times: the two differ exactly at +0.0/-0.0 (finding F8, f8_two_points). Model tied to the code on every run "
         "by driving the public add/lookup API and the model on the same operation sequences (exhaustive short histories over the "
@@ -71,10 +80,19 @@ class C13(Property):
         "replace_at_equal_time_sample", "f8_two_points", "searchKey_bound",
         "global_no_adjacent_redundancy_false", "repeated_time_adjacent_redundancy",
         "chronological_no_adjacent_redundancy", "chrono_step", "adjFree_append",
+        # Props/C13Exact.lean: the property in times
+        "sortedByTime_of_key", "unique_time", "lastLE_eq_time", "replace_pred_eq", "timesIn_apply", "timesIn_applyOps", "reach_adds",
+        "times_strictly_sorted", "adds_time_sorted", "one_point_per_time", "lookup_time_spec", "before_first_time",
+        "add_difficulty_time", "add_effect_time", "add_sample_time", "add_redundant_noop", "replace_at_equal_time_T", "worded_property",
+        "timeKeyOn_of_exact", "no_global_time_key", "timeKeyOn_z", "timeKeyOn_zz_no_negzero", "timeKeyOn_zz_both_zeros_false",
+        "timeKeyOn_rat_integers",
     ]
     partial_theorems = {
-        "adds_sorted": "ordering is by the total_cmp key, not by time: +0.0 and -0.0 are equal times with different keys, so 'at most one point "
-                       "per time' fails on histories containing both (finding F8, reported by the implementation-level oracle)",
+        "adds_sorted / times_strictly_sorted / worded_property":
+            "adds_sorted is by the total_cmp key and holds for IEEE. The property as worded (time order, one point per time, lookups and redundancy by time) is "
+            "proved under TimeKeyOn S (key order = time order on the times that occur); IEEE f64 violates that hypothesis exactly when S contains a NaN or both "
+            "+0.0 and -0.0 (not kernel-checked for Float; shown on a toy scalar with two zeros), so 'at most one point per time' fails on histories containing both "
+            "zeros (finding F8, reported by the implementation-level oracle) and nowhere else among NaN-free histories",
     }
     trusted_base = [
         "Lean 4.33.0 kernel",
